@@ -43,6 +43,12 @@ var (
 	AppClasses        = []string{ExDoNotRetry, ExNoSuchFamily, ExAccessDenied, "com.example.UnknownToClientException", ExIOException}
 )
 
+// doNotRetryClasses are the exception classes that derive from
+// DoNotRetryIOException in HBase: a server marks them do_not_retry in the
+// response header. What the client does with an exception is decided by its
+// class (MasterStoppedException means: find the new master), not by the hint.
+var doNotRetryClasses = map[string]bool{ExMasterStop: true, ExDoNotRetry: true, ExNoSuchFamily: true, ExAccessDenied: true, ExUnknownScan: true}
+
 // Rule injects an exception into matching executions.
 type Rule struct {
 	Table  string // "" = any
@@ -664,7 +670,12 @@ func (c *Cluster) Execute(req *Request) []byte {
 	hdrExc := func(e *Exec, class, msg string) []byte {
 		e.Err, e.ErrLevel = class, "call"
 		c.logExec(e)
-		return finish(&pb.ExceptionResponse{ExceptionClassName: proto.String(class), StackTrace: proto.String(c.excMsg(class, msg, e))}, nil, nil)
+		exc := &pb.ExceptionResponse{ExceptionClassName: proto.String(class), StackTrace: proto.String(c.excMsg(class, msg, e))}
+		if doNotRetryClasses[class] {
+			// subclasses of DoNotRetryIOException travel with the do_not_retry hint
+			exc.DoNotRetry = proto.Bool(true)
+		}
+		return finish(exc, nil, nil)
 	}
 	inPB := c.Rand != nil && c.ScanKnobs.InPB > 0 && c.Rand.Chance(c.ScanKnobs.InPB)
 
